@@ -10,6 +10,8 @@ import QR.Proofs.SourceTieC05b
 import QR.Proofs.SourceTieB2
 import QR.Proofs.SourceTieT1
 import QR.Proofs.SourceTieD6b
+import QR.Props.C04
+import QR.Proofs.CapstoneE2C05
 /-
 C05 - function patterns, geometry and data placement of every symbol.
 Finite part: alignment table = Annex E closed form, mask functions = ISO Table 10.
@@ -346,6 +348,159 @@ theorem C05_source_blank_patterns_src (version : Nat) (hv : 1 ≤ version) :
   QR.SourceTieD6.blank_patterns_src version hv
 
 end SourceTieD6
+
+/-! ### Capstones: (ii) composed with (i) - the TRANSLATED SOURCE satisfies the Spec-level statements.
+    The `…Src` functions (`QR/Proofs/CapstoneE2.lean`) are the right-hand sides of the bridge theorems above: the Python function
+    assembled from the `QR.Gen.Code` fragments, with each callee that is not translated in place as an explicit parameter. -/
+section Capstone
+open QR.Model QR.Gen.Code QR.SourceTieA QR.SourceTieT QR.SourceTieD6 QR.CapstoneE2
+
+theorem C05_source_blankSrc_eq (v : Nat) (hv : 1 ≤ v) : blankSrc v = blank v :=
+  (C05_source_blank_patterns_src v hv).symm
+
+/-- the source-assembled `makeImpl` (function patterns, format / version information with the source-assembled BCH functions,
+    translated `map_data` skeleton with the translated mask lambdas) is `Model.makeImpl`, for every version ≥ 1; composition of
+    `C05_source_makeImpl_src`, `C05_source_blank_patterns_src`, `C04_source_setupTypeInfo_src`, `C04_source_setupTypeNumber_src`,
+    `C04_source_bchTypeInfo_src`, `C04_source_bchTypeNumber_src`, `C05_source_mapData_src_version` and `QR.SourceTie.masks` -/
+theorem C05_source_makeImplSrc_eq (v level : Nat) (test : Bool) (mask : Nat) (data : List Nat) (hv : 1 ≤ v) :
+    makeImplSrc bchDigit v level test mask data = makeImpl v level test mask data := by
+  rw [C05_source_makeImpl_src]
+  unfold makeImplSrc
+  rw [C05_source_blankSrc_eq v hv]
+  cases hB : blank v with
+  | error e => rfl
+  | ok B =>
+    have hn : 15 ≤ makeImpl_modules_count v := by unfold makeImpl_modules_count; omega
+    simp only [R.bind_ok, C04_source_setupTypeInfoSrc_eq _ _ hn,
+      C04_source_setupTypeNumberSrc_eq _ _ (Nat.le_trans (by omega) hn)]
+    by_cases hm : (makeImpl_map_args mask).2 > 7
+    · simp only [if_pos hm]
+    · simp only [if_neg hm]
+      have hk : mask < 8 := by simp only [makeImpl_map_args] at hm; omega
+      rw [show (makeImpl_map_args mask).2 = mask from rfl, maskFuncSrc_eq mask hk]
+      rw [show makeImpl_modules_count v = v * 4 + 17 from rfl, C05_source_mapData_src_version]
+      rfl
+
+/-- **capstone, main.py:QRCode.makeImpl given the codewords** (covers main.py:setup_position_probe_pattern,
+    setup_position_adjust_pattern, setup_timing_pattern - translated whole -, util.py:pattern_position, main.py:setup_type_info,
+    setup_type_number, util.py:BCH_type_info, BCH_type_number, main.py:map_data, the eight lambdas of util.py:mask_func, and the
+    call sequence / arguments / `version >= 7` test of makeImpl; NOT covered, i.e. hand-assembled or parameter: `BCH_digit`
+    (= `Model.bchDigit`, tied by `C04_source_bchDigit_src_while`), the `if pattern == k` dispatch of `mask_func`, the
+    `precomputed_qr_blanks` cache (a cache miss is modelled), the `for`/`while` skeletons of the hand-written assemblers):
+    for every version 1..40, level, mask, test flag and EVERY codeword list the source-assembled `makeImpl` succeeds and
+    returns a (4v+17) x (4v+17) matrix in which every module is definite; from `C05_source_makeImplSrc_eq`,
+    `QR.Sym.makeImpl_spec` and `C05_size_definite`. -/
+theorem C05_source_capstone_size_definite (v level mask : Nat) (test : Bool) (data : List Nat)
+    (h1 : 1 ≤ v) (h40 : v ≤ 40) (hl : level < 4) (hk : mask < 8) :
+    ∃ M, makeImplSrc bchDigit v level test mask data = .ok M ∧
+      M.size = 4 * v + 17 ∧ (∀ r, r < 4 * v + 17 → (M.getD r #[]).size = 4 * v + 17) ∧
+      ∀ r c, r < 4 * v + 17 → c < 4 * v + 17 → (M.get r c).isSome = true := by
+  obtain ⟨M, hM, _⟩ := Sym.makeImpl_spec v level mask test data h1 h40 hl hk
+  exact ⟨M, (C05_source_makeImplSrc_eq v level test mask data h1).trans hM,
+    C05_size_definite v level mask test data h1 h40 hl hk M hM⟩
+
+/-- **capstone, same chain: function patterns** - in the final symbol built by the source-assembled `makeImpl` every module to
+    which the ISO layout assigns a fixed colour (`Spec.fixedColour`: finder patterns, separators, timing patterns, alignment
+    patterns, dark module) holds that colour, for every data content, level and mask; from `C05_source_makeImplSrc_eq` and
+    `C05_function`. -/
+theorem C05_source_capstone_function (v level mask : Nat) (data : List Nat)
+    (h1 : 1 ≤ v) (h40 : v ≤ 40) (hl : level < 4) (hk : mask < 8)
+    (M : Mat) (h : makeImplSrc bchDigit v level false mask data = .ok M) :
+    ∀ r c b, r < 4 * v + 17 → c < 4 * v + 17 → Spec.fixedColour v r c = some b → M.get r c = some b := by
+  rw [C05_source_makeImplSrc_eq v level false mask data h1] at h
+  exact C05_function v level mask data h1 h40 hl hk M h
+
+/-- **capstone, same chain: data placement** - for a full codeword sequence the data region of the symbol built by the
+    source-assembled `makeImpl` (non-function modules in ISO zig-zag order, mask removed: `Spec.readRaw`) is exactly the codeword
+    bits, MSB first, followed by `remainderBits v` zero bits; from `C05_source_makeImplSrc_eq` and `C05_data`. -/
+theorem C05_source_capstone_data (v level mask : Nat) (test : Bool) (data : List Nat)
+    (h1 : 1 ≤ v) (h40 : v ≤ 40) (hl : level < 4) (hk : mask < 8)
+    (M : Mat) (h : makeImplSrc bchDigit v level test mask data = .ok M)
+    (hlen : data.length = Spec.totalCodewords v)
+    (S : Spec.Sym) (hn : S.n = 4 * v + 17)
+    (hS : ∀ r c, r < 4 * v + 17 → c < 4 * v + 17 → S.get r c = (M.get r c).getD false) :
+    Spec.readRaw S v mask = codewordBits data ++ List.replicate (Spec.remainderBits v) false := by
+  rw [C05_source_makeImplSrc_eq v level test mask data h1] at h
+  exact C05_data v level mask test data h1 h40 hl hk M h hlen S hn hS
+
+/-- **capstone, same chain: format / version information in the finished symbol** - every format, version and dark-module cell
+    of the symbol built by the source-assembled `makeImpl` holds the bit of the ISO word (`Spec.infoCell`); from
+    `C05_source_makeImplSrc_eq` and `C05_info`. -/
+theorem C05_source_capstone_info (v level mask : Nat) (test : Bool) (data : List Nat)
+    (h1 : 1 ≤ v) (h40 : v ≤ 40) (hl : level < 4) (hk : mask < 8)
+    (M : Mat) (h : makeImplSrc bchDigit v level test mask data = .ok M) :
+    ∀ r c b, Spec.infoCell v level mask test r c = some b → M.get r c = some b := by
+  rw [C05_source_makeImplSrc_eq v level test mask data h1] at h
+  exact C05_info v level mask test data h1 h40 hl hk M h
+
+/-- **capstone, main.py:setup_position_probe_pattern / setup_position_adjust_pattern / setup_timing_pattern (translated whole)
+    at util.py:pattern_position(version)**: for every version 1..40 the three translated pattern writers, applied to the empty
+    matrix in the order of `makeImpl`, succeed and produce a (4v+17)-square matrix each of whose cells is exactly what the ISO
+    geometry prescribes (`Spec.blankCell`: finder patterns + separators, alignment patterns at the Annex E centres, timing
+    patterns, `None` everywhere else); from `C05_source_blank_patterns_src` and `QR.blank_spec`. -/
+theorem C05_source_capstone_function_patterns (v : Nat) (h1 : 1 ≤ v) (h40 : v ≤ 40) :
+    ∃ B, blankSrc v = .ok B ∧ MatShape B (Spec.size v) ∧
+      ∀ r c, r < Spec.size v → c < Spec.size v → B.get r c = Spec.blankCell v r c := by
+  rw [C05_source_blankSrc_eq v h1]
+  exact blank_spec v h1 h40
+
+/-- **capstone, main.py:QRCode.map_data with the lambdas of util.py:mask_func** (the translated fragments of `map_data` run by the
+    hand-written loop skeleton `srcMapData`, every `while True` with fuel ≥ modules_count; mask = the translated lambda; the
+    `if pattern == k` dispatch is not translated): on ANY matrix of the right shape whose `None` cells are exactly the
+    non-function modules, for every mask 0..7 and codeword list, the loops terminate and the result keeps the shape, leaves every
+    function module unchanged, holds in the `i`-th cell of the ISO zig-zag order (when not a function module) bit number
+    (non-function cells before it) of the codeword stream xor the ISO mask condition, and is read by the Spec reader
+    (`Spec.readRaw`, any symbol showing it) as the codeword bits cut / zero-filled to `rawModules v`; from
+    `C05_source_mapData_src`, `QR.SourceTie.masks` and `QR.GeoC.mapData_shape / mapData_function_unchanged / mapData_nth /
+    readRaw_mapData`. -/
+theorem C05_source_capstone_map_data (v mask : Nat) (h1 : 1 ≤ v) (h40 : v ≤ 40) (hk : mask < 8) (m : Mat)
+    (hs : MatShape m (Spec.size v)) (hm : GeoC.NoneIffData v m) (data : List Nat) (fuel : Nat) (hf : Spec.size v ≤ fuel) :
+    ∃ M, srcMapData (Spec.size v) (maskFuncSrc mask) data fuel m = some M ∧ MatShape M (Spec.size v) ∧
+      (∀ r c, r < Spec.size v → c < Spec.size v → Spec.isFunction v r c = true → M.get r c = m.get r c) ∧
+      (∀ i (hi : i < (Spec.zigzag (Spec.size v)).length),
+        Spec.isFunction v (Spec.zigzag (Spec.size v))[i].1 (Spec.zigzag (Spec.size v))[i].2 = false →
+        M.get (Spec.zigzag (Spec.size v))[i].1 (Spec.zigzag (Spec.size v))[i].2 =
+          some (xor ((codewordBits data).getD
+                      (((Spec.zigzag (Spec.size v)).take i).countP fun p => !Spec.isFunction v p.1 p.2) false)
+                    (Spec.maskCond mask (Spec.zigzag (Spec.size v))[i].1 (Spec.zigzag (Spec.size v))[i].2))) ∧
+      ∀ S : Spec.Sym, GeoC.Shows S (Spec.size v) M →
+        Spec.readRaw S v mask = GeoC.padTake (Spec.rawModules v) (codewordBits data) := by
+  have hodd : Spec.size v % 2 = 1 := by unfold Spec.size; omega
+  refine ⟨mapData (Spec.size v) m data mask, ?_, GeoC.mapData_shape _ _ _ hs _, ?_, ?_, ?_⟩
+  · rw [maskFuncSrc_eq mask hk]
+    exact C05_source_mapData_src (Spec.size v) hodd m data mask fuel hf
+  · exact fun r c hr hc hfn => GeoC.mapData_function_unchanged v mask m hs hm data r c hr hc hfn
+  · exact fun i hi hfn => GeoC.mapData_nth v mask hk m hs hm data i hi hfn
+  · exact fun S hS => GeoC.readRaw_mapData v mask h1 h40 hk m hs hm data S hS
+
+/-- **capstone, util.py:mask_func**: the `p`-th translated lambda is the `p`-th condition of ISO Table 10, for all coordinates;
+    from `C05_source_masks` (= `QR.SourceTie.masks` with `C05_mask`). -/
+theorem C05_source_capstone_mask_func (p i j : Nat) (hp : p < 8) : maskFuncSrc p i j = Spec.maskCond p i j := by
+  obtain ⟨h0, h1, h2, h3, h4, h5, h6, h7⟩ := C05_source_masks i j
+  match p, hp with
+  | 0, _ => exact h0
+  | 1, _ => exact h1
+  | 2, _ => exact h2
+  | 3, _ => exact h3
+  | 4, _ => exact h4
+  | 5, _ => exact h5
+  | 6, _ => exact h6
+  | 7, _ => exact h7
+
+set_option maxRecDepth 100000 in
+/-- the capstones at a concrete input: version 1-M, mask 2, the 26 final codewords of the ISO Annex I example "01234567": the
+    source-assembled `makeImpl` is evaluated; size, dark module, a timing module, a separator module, and the Spec reader's raw
+    sequence = the codeword bits (version 1 has no remainder bits) -/
+example : (match makeImplSrc bchDigit 1 Spec.Level.M.indicator false 2
+      [0x10, 0x20, 0x0C, 0x56, 0x61, 0x80, 0xEC, 0x11, 0xEC, 0x11, 0xEC, 0x11, 0xEC, 0x11, 0xEC, 0x11,
+       0xA5, 0x24, 0xD4, 0xC1, 0xED, 0x36, 0xC7, 0x87, 0x2C, 0x55] with
+    | .ok M => M.size == 21 && M.get 13 8 == some true && M.get 6 8 == some true && M.get 7 7 == some false &&
+        Spec.readRaw { n := M.size, get := fun r c => (M.get r c).getD false } 1 2 ==
+          codewordBits [0x10, 0x20, 0x0C, 0x56, 0x61, 0x80, 0xEC, 0x11, 0xEC, 0x11, 0xEC, 0x11, 0xEC, 0x11, 0xEC, 0x11,
+            0xA5, 0x24, 0xD4, 0xC1, 0xED, 0x36, 0xC7, 0x87, 0x2C, 0x55]
+    | .error _ => false) = true := by decide +kernel
+
+end Capstone
 
 /-- the Python functions this property's model mirrors have, in /repo's current working tree, exactly the normalised
     ASTs the model was written and validated against (fingerprints regenerated by T1 on every run) -/
